@@ -72,9 +72,10 @@ func BuildErrorLines(node models2.JFullIdentifier) []int {
 		ss := strings.Split(imp.Name, ".")
 		lastField := ss[len(ss)-1]
 
-		var isOk = false
+		// a wildcard import is never reported, whatever the file refers to
+		var isOk = lastField == "*"
 		for _, field := range fields {
-			if field.Name == lastField || lastField == "*" {
+			if field.Name == lastField {
 				isOk = true
 			}
 		}
